@@ -11,7 +11,8 @@ open Rbpf.Interp (lo32 zx32 sx32)
 theorem md_exec_rip (c : Cfg) (σ : St) (x : Instr) (r next : Nat) : exec c { σ with rip := r } x next = exec c σ x next := rfl
 
 /-- `x` is a straight-line instruction taking `σ` to `σ'` (up to `rip`) -/
-def md_Step (c : Cfg) (x : Instr) (σ σ' : St) : Prop := ∀ next, exec c σ x next = .next { σ' with rip := next }
+def md_Step (c : Cfg) (x : Instr) (σ σ' : St) : Prop :=
+  (∀ next, exec c σ x next = .next { σ' with rip := next }) ∧ σ'.log = σ.log ∧ σ'.misaligned = σ.misaligned
 
 inductive md_Steps (c : Cfg) : List Instr → St → St → Prop
   | nil (σ : St) : md_Steps c [] σ σ
@@ -22,6 +23,13 @@ theorem md_steps_append {c : Cfg} {xs ys : List Instr} {σ σ1 σ2 : St} (h1 : m
   induction h1 with
   | nil σ => exact h2
   | cons hs _ ih => exact .cons hs (ih h2)
+
+/-- straight-line instructions make no external call: the call log and the misalignment counter stay -/
+theorem md_steps_log {c : Cfg} {xs : List Instr} {σ σ' : St} (h : md_Steps c xs σ σ') :
+    σ'.log = σ.log ∧ σ'.misaligned = σ.misaligned := by
+  induction h with
+  | nil σ => exact ⟨rfl, rfl⟩
+  | cons hs _ ih => exact ⟨ih.1.trans hs.2.1, ih.2.trans hs.2.2⟩
 
 theorem md_steps_one {c : Cfg} {x : Instr} {σ σ1 : St} (h : md_Step c x σ σ1) : md_Steps c [x] σ σ1 := .cons h (.nil _)
 
@@ -37,7 +45,7 @@ theorem md_run_aux (c : Cfg) (tgt : Tgt → Option Nat) (xs : List Instr) (rest 
     obtain ⟨m, hm, hst⟩ := ih (a + n) hc'
     refine ⟨m, hm, ?_⟩
     have hstep : step c { σ with rip := c.codeBase + a } = .next { σ1 with rip := c.codeBase + (a + n) } := by
-      rw [step_at c _ a n x rfl hd, md_exec_rip, hx, Nat.add_assoc]
+      rw [step_at c _ a n x rfl hd, md_exec_rip, hx.1, Nat.add_assoc]
     simp only [List.length_cons]
     exact stepsN_succ c _ _ _ _ hstep hst
 
@@ -56,6 +64,7 @@ theorem md_ofNat_mod (v : BitVec 64) : BitVec.ofNat 64 (v.toNat % 2 ^ 64 % 2 ^ 6
   simp [Nat.mod_eq_of_lt v.isLt]
 
 theorem md_step_movRR (c : Cfg) (σ : St) (s d : Nat) : md_Step c (JitAst.movRR s d) σ (σ.set d (σ.get s)) := by
+  refine ⟨?_, rfl, rfl⟩
   intro next
   simp only [JitAst.movRR, exec, X86.alu, X86.trunc, X86.writeSized, if_true, true_or]
   show Out.next (St.set _ d (BitVec.ofNat 64 ((St.get _ s).toNat % 2 ^ 64 % 2 ^ 64))) = _
@@ -63,10 +72,11 @@ theorem md_step_movRR (c : Cfg) (σ : St) (s d : Nat) : md_Step c (JitAst.movRR 
   rfl
 
 theorem md_step_movabs (c : Cfg) (σ : St) (d : Nat) (v : BitVec 64) : md_Step c (.movabs d v) σ (σ.set d v) := by
-  intro next; rfl
+  exact ⟨fun next => rfl, rfl, rfl⟩
 
 theorem md_step_movRI (c : Cfg) (σ : St) (d : Nat) (imm : BitVec 32) :
     md_Step c (.aluRI true .mov d imm) σ (σ.set d (sx32 imm)) := by
+  refine ⟨?_, rfl, rfl⟩
   intro next
   simp only [exec, X86.alu, X86.writeSized, if_true, true_or]
   show Out.next (St.set _ d (BitVec.ofNat 64 ((imm.signExtend 64).toNat % 2 ^ 64))) = _
@@ -95,6 +105,7 @@ theorem md_step_loadImm32 (c : Cfg) (σ : St) (d : Nat) (imm : BitVec 32) :
 
 theorem md_step_xor32 (c : Cfg) (σ : St) (d : Nat) : ∃ fl, md_Step c (.aluRR false .xor d d) σ ({ σ with flags := fl }.set d 0) := by
   refine ⟨some (X86.flagsLogic 32 0), ?_⟩
+  refine ⟨?_, rfl, rfl⟩
   intro next
   simp only [exec, X86.alu, X86.writeSized, Bool.false_eq_true, if_false, or_true, if_true, Nat.xor_self, Nat.zero_mod]
   rfl
@@ -102,6 +113,7 @@ theorem md_step_xor32 (c : Cfg) (σ : St) (d : Nat) : ∃ fl, md_Step c (.aluRR 
 theorem md_step_test (c : Cfg) (σ : St) (w : Bool) (r : Nat) :
     md_Step c (.aluRR w .test r r) σ
       { σ with flags := some (X86.flagsLogic (if w then 64 else 32) (X86.trunc (if w then 64 else 32) (σ.get r))) } := by
+  refine ⟨?_, rfl, rfl⟩
   intro next
   simp only [exec, X86.alu, Nat.and_self]
   rfl
@@ -125,11 +137,13 @@ theorem md_step_mul (c : Cfg) (σ : St) (w : Bool) :
     ∃ hi, md_Step c (.mul w 1) σ (({ σ with flags := none }.set 0 (md_mulLo w (σ.get 0) (σ.get 1))).set 2 hi) := by
   cases w
   · refine ⟨BitVec.ofNat 64 (X86.trunc 32 (σ.get 0) * X86.trunc 32 (σ.get 1) / 2 ^ 32 % 2 ^ 32), ?_⟩
+    refine ⟨?_, rfl, rfl⟩
     intro next
     simp only [exec, X86.trunc, X86.writeSized, X86.RAX, X86.RDX, Bool.false_eq_true, if_false, or_true, if_true, md_mulLo]
     rw [← md_arith_mul32]
     rfl
   · refine ⟨BitVec.ofNat 64 (X86.trunc 64 (σ.get 0) * X86.trunc 64 (σ.get 1) / 2 ^ 64 % 2 ^ 64), ?_⟩
+    refine ⟨?_, rfl, rfl⟩
     intro next
     simp only [exec, X86.trunc, X86.writeSized, X86.RAX, X86.RDX, if_true, true_or, md_mulLo]
     rw [← md_arith_mul64]
@@ -168,7 +182,8 @@ theorem md_step_div (c : Cfg) (σ : St) (w : Bool) (h2 : σ.get 2 = 0) (hnz : md
       (({ σ with flags := none }.set 0 (md_divQ w (σ.get 0) (σ.get 1))).set 2 (md_divR w (σ.get 0) (σ.get 1))) := by
   have hz : (0 : BitVec 64).toNat = 0 := rfl
   cases w
-  · intro next
+  · refine ⟨?_, rfl, rfl⟩
+    intro next
     have hd : ¬ (σ.get 1).toNat % 2 ^ 32 = 0 := by
       intro h0
       apply hnz
@@ -184,7 +199,8 @@ theorem md_step_div (c : Cfg) (σ : St) (w : Bool) (h2 : σ.get 2 = 0) (hnz : md
     simp only [hz, Nat.zero_mod, Nat.zero_mul, Nat.zero_add]
     rw [← md_arith_div32, ← md_arith_mod32]
     rfl
-  · intro next
+  · refine ⟨?_, rfl, rfl⟩
+    intro next
     have hd : ¬ (σ.get 1).toNat % 2 ^ 64 = 0 := by
       intro h0
       apply hnz
@@ -218,8 +234,8 @@ theorem md_step_push (c : Cfg) {pre : List Region} {base size : Nat} {σ : St} {
     (h : md_NS pre base size σ slots) (hroom : 8 * (slots.length + 1) ≤ size) :
     ∃ σ1, md_Step c (.push r) σ σ1 ∧ (∀ k, σ1.get k = (σ.set 4 (σ.get 4 - 8)).get k) ∧
       md_NS pre base size σ1 (slots ++ [(σ.get r).toNat]) := by
-  obtain ⟨σ1, hp, hreg, _, _, hns⟩ := md_ns_push h hroom (σ.get r)
-  refine ⟨σ1, ?_, fun k => get_congr _ _ k hreg, hns⟩
+  obtain ⟨σ1, hp, hreg, _, _, hlog, hmis, hns⟩ := md_ns_push h hroom (σ.get r)
+  refine ⟨σ1, ⟨?_, hlog, hmis⟩, fun k => get_congr _ _ k hreg, hns⟩
   intro next
   simp only [exec, md_get_rip, md_push_rip, hp, Option.map_some]
 
@@ -229,7 +245,8 @@ theorem md_step_pop (c : Cfg) {pre : List Region} {base size : Nat} {σ : St} {s
       md_NS pre base size ((σ.set 4 (σ.get 4 + 8)).set r v) slots := by
   obtain ⟨hp, hns⟩ := md_ns_pop h
   constructor
-  · intro next
+  · refine ⟨?_, rfl, rfl⟩
+    intro next
     simp only [exec, md_pop_rip, hp, Option.map_some]
     rfl
   · exact md_ns_congr hns rfl (get_set_ne _ r 4 v hr)
